@@ -920,6 +920,7 @@ func c05Verify(c *Ctx, prune *ssa.Function) {
 }
 
 var c05Canaries = []Canary{
+	{Name: "r4-dry-run-transposed", ExpectKey: "C05.R1#dry-run-flag-reaches-prune", Edits: []Edit{{File: "commands/command_fetch.go", Find: "prune(fetchPruneCfg, verify, verifyUnreachable, false, fetchDryRunArg, fetchDryRunArg)", Repl: "prune(fetchPruneCfg, verify, verifyUnreachable, fetchDryRunArg, false, fetchDryRunArg)"}}},
 	{Name: "dry-run-deletes", ExpectKey: "C05.R1#delete-gated-by-dry-run", Edits: []Edit{{File: "commands/command_prune.go", Find: "	if !dryRun {\n		pruneDeleteFiles(prunableObjects, logger)\n	}", Repl: "	if !dryRun || verbose {\n		pruneDeleteFiles(prunableObjects, logger)\n	}"}}},
 	{Name: "inverted-contains", ExpectKey: "C05.R2", Edits: []Edit{{File: "commands/command_prune.go", Find: "		if !retainedObjects.Contains(file.Oid) {", Repl: "		if retainedObjects.Contains(file.Oid) {"}}},
 	{Name: "add-four-start-five", ExpectKey: "C05.R3#taskwait-count", Edits: []Edit{{File: "commands/command_prune.go", Find: "	taskwait.Add(5) // 1..5", Repl: "	taskwait.Add(4) // 1..5"}}},
